@@ -30,9 +30,12 @@ package stackitem
 //@ ensures is(recv, *ByteArray) && recv.(*ByteArray) != nil ==> is(result, []byte) && same(result.([]byte), *recv.(*ByteArray))   // the body of (*ByteArray).Value
 //@ ensures result == valueOf(recv)   // what an item holds is a function of the item (its elements for a compound one)
 
+// the type byte of an item is decided by its implementation
+//@ spec typeOf(it Item) Type = ite(is(it, *BigInteger), IntegerT, ite(is(it, Bool), BooleanT, ite(is(it, *ByteArray), ByteArrayT, ite(is(it, *Buffer), BufferT, ite(is(it, *Array), ArrayT, ite(is(it, *Struct), StructT, ite(is(it, *Map), MapT, ite(is(it, *Interop), InteropT, ite(is(it, *Pointer), PointerT, AnyT)))))))))
 //@ iface Item.Type
 //@ assumed
 //@ pure
+//@ ensures[kind] result == typeOf(recv)
 
 //@ func ToString
 //@ assumed
